@@ -66,9 +66,21 @@ func NewWarmUpTrafficShapingCalculator(owner *TrafficShapingController, rule *Ru
 	// the warm-up period in intervals
 	period := float64(rule.WarmUpPeriodSec) * 1000.0 / float64(intervalInMs)
 
-	warningToken := uint64((period * rule.Threshold) / float64(coldFactor-1))
+	// The token figures are kept in 64-bit integers: beyond that range (a practically unlimited threshold,
+	// math.MaxInt64 and the like) the conversions wrapped, the warning line came out negative and the rule
+	// passed one token per interval for ever. They saturate instead, far above anything that can be passed.
+	const tokenCeiling = float64(1 << 61)
+	warning := (period * rule.Threshold) / float64(coldFactor-1)
+	if !(warning < tokenCeiling) {
+		warning = tokenCeiling
+	}
+	above := 2 * period * rule.Threshold / float64(1.0+coldFactor)
+	if !(above < tokenCeiling) {
+		above = tokenCeiling
+	}
+	warningToken := uint64(warning)
 
-	maxToken := warningToken + uint64(2*period*rule.Threshold/float64(1.0+coldFactor))
+	maxToken := warningToken + uint64(above)
 	if maxToken <= warningToken {
 		// A small threshold x period with a large cold factor truncates the room above the warning line
 		// to nothing, and a bucket that cannot rise above the line never makes the rule cold: it
